@@ -124,13 +124,19 @@ pub fn set_error_detail(enabled: bool) {
 #[derive(Debug)]
 struct CallLimitTracker {
     current_call_limit: Option<(usize, usize)>,
+    /// Set once a call has been refused because the limit was reached. The refusal itself can be
+    /// absorbed by `optional`, `repeat` or a negative `lookahead`, so it has to be remembered.
+    refused: bool,
 }
 
 impl Default for CallLimitTracker {
     fn default() -> Self {
         let limit = CALL_LIMIT.load(Ordering::Relaxed);
         let current_call_limit = if limit > 0 { Some((0, limit)) } else { None };
-        Self { current_call_limit }
+        Self {
+            current_call_limit,
+            refused: false,
+        }
     }
 }
 
@@ -514,6 +520,16 @@ where
         Ok(state) => {
             #[cfg(pest_parser_pest_verif)]
             crate::verif::record(state.verif_final_view(true));
+            if state.call_tracker.refused {
+                // A refused call was absorbed on the way: the result is not the result of the
+                // grammar, so it must not be returned as a success.
+                return Err(Error::new_from_pos(
+                    ErrorVariant::CustomError {
+                        message: "call limit reached".to_owned(),
+                    },
+                    Position::new_internal(input, state.attempt_pos),
+                ));
+            }
             let len = state.queue.len();
             Ok(new(Rc::new(state.queue), input, None, 0, len))
         }
@@ -644,6 +660,7 @@ impl<'i, R: RuleType> ParserState<'i, R> {
     #[inline]
     fn inc_call_check_limit(mut self: Box<Self>) -> ParseResult<Box<Self>> {
         if self.call_tracker.limit_reached() {
+            self.call_tracker.refused = true;
             return Err(self);
         }
         self.call_tracker.increment_depth();
